@@ -97,3 +97,54 @@ Example C01_nonvacuous :
   wf_message m = true /\
   (exists e, M_message m = Ok e /\ U_message Stream zero_message (e ++ [xc0]) = Ok (norm_message m, [xc0])).
 Proof. split; [reflexivity|]. eexists; split; [reflexivity|]. vm_compute. reflexivity. Qed.
+
+(* ---- alternative encodings: a message that is well formed according to the independent
+   specification parser, in ANY legal msgpack encoding of its fields (other integer widths,
+   unsigned timestamps, longer string / array / map headers, ext8/ext16/ext32 EventTime,
+   option element absent), decodes on both paths to the value the specification assigns to
+   it.  [supported_value]: what the library documents as supported inside records (string
+   map keys; EventTime extensions with 8-byte payload and nanoseconds below 10^9; no msgp
+   time/complex extensions 3/4/5).  [opts_simple]: size within int64, and on the stream
+   path no unknown option keys (there an empty unknown key / an ext32-encoded value is
+   rejected by msgp; see Complete_Proofs.U_options_complete_stream for the exact limits). ---- *)
+From FF Require Import model.Spec model.Abs.
+From FF Require proofs.Lead_Proofs proofs.Chunk_Proofs proofs.Complete_Proofs.
+Import Complete_Proofs.
+
+Theorem C01_alt_message : forall p prev bs tag z rec oo rest,
+  spec_parse (shape_message_gen false) bs = Some (SMessage tag (Spec.TInt z) rec oo, rest) ->
+  int64_ok z = true -> supported_value rec = true -> opts_simple p oo ->
+  exists m, U_message p prev bs = Ok (m, rest) /\ m_tag m = tag /\ m_ts m = z /\
+            value_of (m_rec m) = rec /\ optopt_rel (m_opts m) oo.
+Proof. exact U_message_complete. Qed.
+Print Assumptions C01_alt_message.
+
+Theorem C01_alt_message_ext : forall p prev bs tag sec nsec rec oo rest,
+  spec_parse (shape_message_gen false) bs = Some (SMessage tag (TEvent sec nsec) rec oo, rest) ->
+  supported_value rec = true -> opts_simple p oo ->
+  exists m, U_message_ext p prev bs = Ok (m, rest) /\ x_tag m = tag /\
+    x_ts m = (Z.of_N (sec + nsec / 1000000000), nsec mod 1000000000) /\
+    value_of (x_rec m) = rec /\ optopt_rel (x_opts m) oo.
+Proof. exact U_message_ext_complete. Qed.
+Print Assumptions C01_alt_message_ext.
+
+Theorem C01_alt_forward : forall p prev bs tag es oo rest,
+  spec_parse (shape_forward_gen false) bs = Some (SForward tag es oo, rest) ->
+  Forall (fun tv => supported_value (snd tv) = true) es -> opts_simple p oo ->
+  exists m, U_forward p prev bs = Ok (m, rest) /\ f_tag m = tag /\
+    Forall2 entry_rel (f_entries m) es /\ optopt_rel (f_opts m) oo.
+Proof. exact U_forward_complete. Qed.
+Print Assumptions C01_alt_forward.
+
+Theorem C01_alt_packed : forall p prev bs tag st oo rest,
+  spec_parse shape_packed bs = Some (SPacked tag st oo, rest) -> opts_simple p oo ->
+  exists m, U_packed p prev bs = Ok (m, rest) /\ p_tag m = tag /\ p_stream m = st /\
+            optopt_rel (p_opts m) oo.
+Proof. exact U_packed_complete. Qed.
+Print Assumptions C01_alt_packed.
+
+(* records: every supported value, in any encoding, is read back as that value *)
+Theorem C01_alt_values : forall p f bs v r, parse f bs = Some (v, r) -> supported_value v = true ->
+  forall f', (fuel_for bs <= f')%nat -> exists g, rd_intf p f' bs = Ok (g, r) /\ value_of g = v.
+Proof. exact rd_intf_complete_fuel. Qed.
+Print Assumptions C01_alt_values.
